@@ -5,6 +5,7 @@ import z3
 from mirsym import shapes as S, models as M
 from mirsym.interp import State, Agg, Ptr, Panic, Ret, UNINIT, UNIT, bv, Opaque, Inconclusive, simp
 from mirsym import harness
+from props import coincontract as CC
 
 COIN_TYPES = {r'^single:CoinID$': 'CoinDataHeight', r'^keyed\[coin_count\]': 'u64'}
 
@@ -57,6 +58,10 @@ def install_invariant(it):
     it.base_single_hooks.pop('coins', None)
 
 
+def contract_eq(it, st, ta, tb, keys):
+    return z3.And([M.bytes_eq(M.tree_get(it, st, ta, k), M.tree_get(it, st, tb, k)) for k in keys])
+
+
 def delta_claim(it, st0_tree, st, tree_after, id_terms, a):
     """for the (universally quantified) covhash a: count'(a) - count(a) == change in the number of coins locked by a,
     where only the coin at id_terms changed; and a stored count is never 0"""
@@ -98,6 +103,8 @@ def run(chk):
     a = z3.BitVec('any_covhash', 256)
 
     def fresh_state():
+        from mirsym.interp import G
+        G.reset()
         st = State()
         t0 = M.TreeModel('coins', (), COIN_TYPES)
         cell = st.alloc(Agg('CoinMapping', [Opaque('Tree', t0)]))
@@ -131,6 +138,12 @@ def run(chk):
                 claim = z3.And([M.DOM(ev[2]) == M.DOM(coin_key(s, txh, idx)) for ev in writes])
                 chk.obligation('FRAME/' + tag + '/no-count-write', s.pc, claim, inputs,
                                replay=None, kind='FRAME')
+            # the method meets the contract the batch-level checks use as its summary
+            t2 = CC.contract_insert(it, s, t0, cid, cdh, z3.BoolVal(flag))
+            ceq = contract_eq(it, s, t1, t2, [coin_key(s, txh, idx), count_key(s, covhash_of(cdh))])
+            chk.obligation('CONTRACT/' + tag, list(s.pc), ceq, inputs,
+                           replay=lambda mo, inputs=inputs, flag=flag: replay_ops(chk, mo, inputs, 'insert', flag), kind='FUNC',
+                           bound='arbitrary tree')
             p1, c1 = coin_at(it, s, t1, txh, idx)
             chk.obligation('FUNC/' + tag + '/stored', s.pc, z3.And(p1, M.val_eq(c1, cdh)), inputs,
                            replay=lambda mo, inputs=inputs, flag=flag: replay_ops(chk, mo, inputs, 'insert', flag))
@@ -154,6 +167,16 @@ def run(chk):
                 claim = delta_claim(it, t0, s, t1, (txh, idx), a)
                 chk.obligation('STEP/' + tag + '/count-delta', s.pc, claim, inputs,
                                replay=lambda mo, inputs=inputs, flag=flag: replay_ops(chk, mo, inputs, 'remove', flag), bound='arbitrary tree, any covhash a')
+            t2 = CC.contract_remove(it, s, t0, cid, z3.BoolVal(flag))
+            p0r, c0r = coin_at(it, s, t0, txh, idx)
+            keys = [coin_key(s, txh, idx)] + ([count_key(s, covhash_of(c0r))] if c0r is not None else [])
+            ceq = contract_eq(it, s, t1, t2, keys)
+            chk.obligation('CONTRACT/' + tag, list(s.pc), ceq, inputs,
+                           replay=lambda mo, inputs=inputs, flag=flag: replay_ops(chk, mo, inputs, 'remove', flag), kind='FUNC',
+                           bound='arbitrary tree satisfying I-COUNT')
+            written = [e[2] for e in s.events if e[0] == 'tree_insert']
+            chk.obligation('FRAME/' + tag + '/keys', list(s.pc), z3.And([z3.Or([w == k for k in keys]) for w in written]),
+                           inputs, replay=None, kind='FRAME')
             p1, c1 = coin_at(it, s, t1, txh, idx)
             chk.obligation('FUNC/' + tag + '/removed', s.pc, z3.Not(p1), inputs, replay=lambda mo, inputs=inputs, flag=flag: replay_ops(chk, mo, inputs, 'remove', flag))
             chk.sample({'op': tag, 'writes': [(e[2].sexpr()[:60]) for e in s.events if e[0] == 'tree_insert']})
@@ -174,6 +197,8 @@ def call_sites(chk, it):
     # collect_proposer_action_fee
     fn = it.by_last['collect_proposer_action_fee'][0]
     it.merge_rx = re.compile(r'::tip_condition$')
+    from mirsym.interp import G
+    G.reset()
     st = State()
     net, netd = S.sym_netid('network', st.pc)
     h = z3.BitVec('height', 64)
